@@ -100,6 +100,12 @@ DIRECTED = [
     (["-t", "ext4", "-b", "4096", "-O", "mmp"], [], 40000),
     (["-t", "ext3", "-b", "1024", "-J", "size=4"], [], 32768),
     (["-t", "ext4", "-b", "2048", "-G", "4", "-O", "flex_bg"], ["packed_meta_blocks=1"], 50000),
+    # RAID stride without flex_bg: the staggered bitmap position walks through every offset of a group, the last block included
+    (["-t", "ext2", "-b", "1024", "-I", "128", "-N", "40800"], ["stride=496"], 163841),
+    (["-t", "ext2", "-b", "1024", "-g", "1024"], ["stride=7"], 262144),
+    (["-t", "ext3", "-b", "1024", "-g", "512", "-N", "2048"], ["stride=13"], 131072),
+    (["-t", "ext2", "-b", "2048", "-g", "2048", "-O", "^resize_inode"], ["stride=31,stripe_width=62"], 100000),
+    (["-t", "ext4", "-b", "1024", "-g", "1024", "-O", "^flex_bg"], ["stride=5"], 200000),
 ]
 
 
